@@ -370,3 +370,35 @@ func VerifC24_Group() {
 		}
 	}
 }
+
+// VerifC24_GroupSeparators: list elements that contain a separator character. Snapshot 1 has the two
+// paths (tags) x and y, snapshot 2 the single path (tag) x<sep>y for sep in {blank , | ] " \}: they agree
+// on the host but are different path (tag) lists, so grouping by paths (tags) must keep them apart.
+func VerifC24_GroupSeparators() {
+	verifrt.Stub("encoding/json.Marshal", verifC24Marshal)
+	seps := []string{" ", ",", "|", "]", "\"", "\\"}
+	k := verifrt.Int("sep", 0, len(seps)-1)
+	sep := seps[0]
+	for i := range seps { // fork: concrete separator
+		if k == i {
+			sep = seps[i]
+		}
+	}
+	id1, id2 := restic.ID{1}, restic.ID{2}
+	a := &Snapshot{id: &id1, Hostname: "h"}
+	b := &Snapshot{id: &id2, Hostname: "h"}
+	byPath := verifrt.Bool("byPath")
+	if byPath {
+		a.Paths, b.Paths = []string{"/a", "/b"}, []string{"/a" + sep + "/b"}
+	} else {
+		a.Tags, b.Tags = []string{"a", "b"}, []string{"a" + sep + "b"}
+	}
+	by := SnapshotGroupByOptions{Host: verifrt.Bool("byHost"), Path: byPath, Tag: !byPath}
+	groups, _, err := GroupSnapshots(Snapshots{a, b}, by)
+	verifrt.Assert(err == nil, "GroupSnapshots failed")
+	verifrt.Assert(len(groups) == 2, "snapshots with different path/tag lists were put into one group")
+	for _, g := range groups {
+		verifrt.Assert(len(g) == 1, "a group does not hold exactly one of the two snapshots")
+	}
+	verifrt.Reach("separated")
+}
